@@ -129,6 +129,16 @@ func VerifMaxSteps(n int) {}
 // replay driver's wall-clock limit plays that role.
 func VerifStepBudget(n int) {}
 
+// VerifQuiet runs f without recording its filesystem steps in the trace that
+// is compared between the model and the real filesystem (for harness-level
+// inspection of the directory).
+func VerifQuiet(f func()) {
+	old := verifSched.quiet
+	verifSched.quiet = true
+	f()
+	verifSched.quiet = old
+}
+
 // VerifShared runs f(0) and f(1), which must return the same digest: one after
 // the other under the engine (which also flags any write to frozen state),
 // concurrently in two goroutines - many rounds - natively, where the replay is
